@@ -179,8 +179,8 @@ func (o *histogramOperator) loadSeries(ctx context.Context) error {
 		if err != nil {
 			continue
 		}
-		lbls, _ = DropMetricName(lbls)
-
+		// Buckets are grouped by all their labels but "le", including the metric name
+		// (like the reference engine); the name is dropped from the output series only.
 		hasher.Reset()
 		hashBuf = lbls.Bytes(hashBuf)
 		if _, err := hasher.Write(hashBuf); err != nil {
@@ -190,6 +190,7 @@ func (o *histogramOperator) loadSeries(ctx context.Context) error {
 		seriesHash := hasher.Sum64()
 		seriesID, ok := seriesHashes[seriesHash]
 		if !ok {
+			lbls, _ = DropMetricName(lbls)
 			o.series = append(o.series, lbls)
 			seriesID = len(o.series) - 1
 			seriesHashes[seriesHash] = seriesID
